@@ -57,6 +57,9 @@ PixelOfSub(t, offs) == IF t < 0 \/ t >= offs[Len(offs)] THEN 0
 SubPos(t, k, sub, offs) == << (t - offs[k]) \div sub[k], (t - offs[k]) % sub[k] >>
 SubIndex(k, q, sub, offs) == offs[k] + q[1] * sub[k] + q[2]
 
+ASSUME \A s \in {1, 2, 3, 4, 6, 12} : \A q \in (0 .. s-1) \X (0 .. s-1) :
+           << (q[1] * s + q[2]) \div s, (q[1] * s + q[2]) % s >> = q      \* row-major index <-> sub-cell, checked once by TLC
+
 \* the centre named by the statement: centre of the bounding box of the unmasked region, DOUBLED (so it is an integer)
 Rows(u) == { c[1] : c \in u }
 Cols(u) == { c[2] : c \in u }
@@ -83,9 +86,10 @@ BorderMay(u, H, W)  == BorderOf(EdgeMay(u, H, W), u, H, W)
 \* centre = centre of the bounding box of all sub-pixel CENTRES (depends on the sub-sizes of the extreme pixels),
 \* scan of the pixel's sub-pixels in index order keeping the last one that is >= the running maximum
 SubOf(c, u, W, sub) == sub[Rank(c, u, W)]
-CodeCentre2(u, W, sub) ==
-    LET ys == UNION { { SubC(c[1], a, SubOf(c, u, W, sub)) : a \in {0, SubOf(c, u, W, sub) - 1} } : c \in u }
-        xs == UNION { { SubC(c[2], a, SubOf(c, u, W, sub)) : a \in {0, SubOf(c, u, W, sub) - 1} } : c \in u }
+CodeCentre2(u, H, W, sub) ==
+    LET nfs == SlimSeq(u, H, W)
+        ys == UNION { { SubC(nfs[k][1], 0, sub[k]), SubC(nfs[k][1], sub[k] - 1, sub[k]) } : k \in DOMAIN sub }
+        xs == UNION { { SubC(nfs[k][2], 0, sub[k]), SubC(nfs[k][2], sub[k] - 1, sub[k]) } : k \in DOMAIN sub }
     IN << Min(ys) + Max(ys), Min(xs) + Max(xs) >>
 CodeScan(c, s, ctr) ==
     LET f[t \in 0 .. s*s] == IF t = 0 THEN << 0, 0 >>          \* << running maximum, chosen index + 1 >>
@@ -163,8 +167,8 @@ RInit == InitSel \/ InitRel
 \* the answer of the sub-border query: for every pixel that may be a border pixel the set of valid sub-pixels
 Select == /\ phase = "mask"
           /\ phase' = "selected"
-          /\ obs' = [p \in BorderMay(U, shape[1], shape[2]) |->
-                        Best(p, SubOf(p, U, shape[2], sub), Centre2(U))]
+          /\ obs' = LET ctr == Centre2(U)
+                     IN [p \in BorderMay(U, shape[1], shape[2]) |-> Best(p, SubOf(p, U, shape[2], sub), ctr)]
           /\ PrintT(ToJson([k |-> "inst", h |-> shape[1], w |-> shape[2],
                             u |-> SlimSrc(U, shape[1], shape[2]), sub |-> sub]))
           /\ UNCHANGED << shape, U, sub, bord, pt >>
@@ -199,17 +203,22 @@ SelTiesOnCentreLines == Selected => \A p \in DOMAIN obs :
                                                  \/ 2*p[2] = Min(Cols(U)) + Max(Cols(U))))
 \* the code-shaped formulation (centre of the box of sub-pixel CENTRES, last-maximum scan) always yields a valid choice,
 \* whatever the sub-sizes of the other pixels are
-SelCodeShapeAgrees == Selected => \A p \in DOMAIN obs :
-                              CodeScan(p, SS(p), CodeCentre2(U, shape[2], sub)) \in obs[p]
+SelCodeShapeAgrees == Selected => LET cc == CodeCentre2(U, shape[1], shape[2], sub)
+                                  IN \A p \in DOMAIN obs : CodeScan(p, SS(p), cc) \in obs[p]
 \* the code-shaped centre is never more than half a pixel (L lattice units, doubled: 2L) away from the stated centre
-SelCodeCentreClose == Selected => LET a == CodeCentre2(U, shape[2], sub)
+SelCodeCentreClose == Selected => LET a == CodeCentre2(U, shape[1], shape[2], sub)
                                       b == Centre2(U)
                                   IN Abs(a[1] - b[1]) < 2*L /\ Abs(a[2] - b[2]) < 2*L
-\* sub-slim indexing is a bijection between 0 .. total-1 and (pixel, sub-cell)
+\* sub-slim indexing: pixel k owns the indices offs[k] .. offs[k+1]-1 (consecutive blocks of sub[k]^2 starting at 0),
+\* and inside a block index and sub-cell are inverse to each other (row-major)
 SelIndexing == Selected => LET offs == Offsets(sub) IN
-                              \A k \in 1 .. Len(sub) : \A q \in SubCells(sub[k]) :
-                                  LET t == SubIndex(k, q, sub, offs)
-                                  IN PixelOfSub(t, offs) = k /\ SubPos(t, k, sub, offs) = q
+                              /\ offs[1] = 0
+                              /\ \A k \in 1 .. Len(sub) :
+                                    /\ offs[k+1] = offs[k] + sub[k] * sub[k]
+                                    /\ PixelOfSub(offs[k], offs) = k /\ PixelOfSub(offs[k+1] - 1, offs) = k
+                                    /\ \A q \in {0, sub[k] - 1} \X {0, sub[k] - 1} :
+                                          LET t == SubIndex(k, q, sub, offs)
+                                          IN t >= offs[k] /\ t < offs[k+1] /\ SubPos(t, k, sub, offs) = q
 \* the border that may be reported contains the border that must be reported
 SelBorderSandwich == Selected => BorderMust(U, shape[1], shape[2]) \subseteq BorderMay(U, shape[1], shape[2])
 
